@@ -51,7 +51,7 @@ def run(ctx):
         case = {'styles': names, 'references': refs}
         autos_t = X.walk_real(doc.automaticstyles)
         # ---- correspondence --------------------------------------------------------------------------
-        for tag, segs in (('content', [doc.styles, doc.automaticstyles, doc.body]), ('styles', [doc.masterstyles])):
+        for tag, segs in (('content', [doc.styles, doc.body]), ('styles', [doc.masterstyles])):
             real = [X.walk_real(s) for s in doc._used_auto_styles(segs)]
             m = d.call('doc_used', '(' + ' '.join(X.node_sx(X.walk_real(s)) for s in segs) + ')', X.node_sx(autos_t))
             ctx.corr('_used_auto_styles for %s.xml' % tag, case, [X.node_from_sx(x) for x in m], real)
